@@ -35,13 +35,38 @@ var litPool = []string{"Inf", "-inf", "+Infinity", "infinit", "NaN", "nan", "+na
 var padPool = []string{"007", "08", "9", "10", "100", "0010", "000", "0", "8", "16", "008", "8.5", "9.0", "0.5",
 	"7", "07", "1e1", "10.0", "0.01k", "1k", "0100", "99", "099", "16.0", "015", "15"}
 
+// genuine numbers written with 33-80 bytes: long integers, long fractions, zero-padded, with suffixes
+var longPool = []string{
+	"340282366920938463463374607431768211456",                 // 2^128 written out
+	"0.00000000000000000000000000000000001",                   // 1e-35
+	"100000000000000000000000000000000",                       // 1 and 32 zeros
+	"000000000000000000000000000000000007",                    // 7, 36 bytes
+	"1.00000000000000000000000000000000Y",                     // 1e24
+	"0000000000000000000000000000000000000000000000000000016", // 16, 55 bytes
+	"3.1415926535897932384626433832795028841971693993751058209749445923", // 66 bytes
+	"12345678901234567890123456789012345678901234567890123456789012345678901234567890", // 80 bytes
+	"0.000000000000000000000000000000000000000000000000000000000000000000000001k",
+	"00000000000000000000000000000001.5Ki", "7", "16", "1e35", "1e-35", "1Y", "NaN", "abc", "1e32", "3.14",
+}
+
+// values a few ulps apart: neighbours of k-suffixed spellings, 0.1+0.2-style sums, adjacent float64s
+var ulpPool = []string{"4030", "4.03k", "4.030000000000001e3", "4.0300000000000002e3", "3e-1", "0.30000000000000004", "0.3",
+	"0.30000000000000001", "0.1", "0.10000000000000002", "1", "1.0000000000000002", "1.0000000000000004", "0.9999999999999999",
+	"1e3", "1k", "1.0000000000000002k", "999.9999999999999", "2.2k", "2200", "2.2000000000000003e3", "1.1k", "1100", "1100.0000000000002"}
+
 // pickValues chooses the values of a scenario from one themed pool (or a mix).
 func pickValues(r *hx.Rand) []string {
 	var src []string
 	pad := false
-	switch r.Intn(10) {
+	switch r.Intn(14) {
 	case 8, 9:
 		src = padPool
+		pad = true
+	case 10, 11:
+		src = longPool
+		pad = true
+	case 12, 13:
+		src = ulpPool
 		pad = true
 	case 0, 1, 2:
 		src = pool
@@ -52,7 +77,7 @@ func pickValues(r *hx.Rand) []string {
 	case 6:
 		src = litPool
 	default:
-		src = append(append(append(append(append([]string(nil), pool...), prefixPool...), tiePool...), litPool...), padPool...)
+		src = append(append(append(append(append([]string(nil), pool...), prefixPool...), tiePool...), litPool...), padPool...), longPool...), ulpPool...)
 	}
 	nv := 2 + r.Intn(4)
 	if pad {
